@@ -203,7 +203,8 @@ let stats_check line =
 
 (* ---- real runs: the harness prints
         "IN <recorded samples as a stats case> EXP <e0>|<e1>|<e2>|<e3> OUT <stats line>"
-   e_k = "*" (kind k has no input counter), "-" (no samples) or the samples joined by ";", a sample = comma list
+   e_k = "=c" (a constant counter c had the last word for kind k), "!" (no counter of kind k), "*" (no expectation),
+   "-" (input counter, no samples) or, for an input counter, the samples joined by ";", a sample = comma list
    of the counts of its inputs, "v^k" = k inputs of count v ---- *)
 let find_sub (s : string) (key : string) (from : int) : int option =
   let lk = String.length key and ls = String.length s in
@@ -237,6 +238,9 @@ let stored_ok (inner : string) (exp : string) : bool =
   List.length es = List.length inp.in_counters
   && List.for_all2 (fun e ci ->
       if e = "*" then true
+      else if e = "!" then no_counter_sb ci
+      else if String.length e > 0 && e.[0] = '=' then
+        constant_counter_sb (n_of_string (String.sub e 1 (String.length e - 1))) ci
       else
         let sums = if e = "-" then [] else List.map sample_sum (String.split_on_char ';' e) in
         List.length sums = List.length inp.in_durs && stored_counts_sb inp.in_size sums ci)
@@ -252,7 +256,7 @@ let run_check line =
   let (_, i) = split_sb line in
   match split_in_out i with
   | Some (inner, exp, out) ->
-    if not (stored_ok inner exp) then verdict false "stored-counts-not-one-per-sample-with-the-samples-own-value"
+    if not (stored_ok inner exp) then verdict false "stored-counts-not-one-per-sample-with-the-samples-own-value-or-not-the-last-constant"
     else stats_check (inner ^ "\t" ^ out)
   | None -> verdict false ("outcome:" ^ i)
 
